@@ -5,6 +5,7 @@ CONSTANTS
   MaxChange = 2
   Bug = "squash_drops"
   Emit = FALSE
+  Directed = FALSE
   Shapes <- ShapesQuick
 INVARIANTS InvLaws
 CHECK_DEADLOCK FALSE
